@@ -227,3 +227,121 @@ def rs_all(it: Any, f: Callable) -> bool:
         if not f(v):
             return False
     return True
+
+
+# -- further Option / Vec / iterator methods (Option<T> is None | T) -------------------------------------------
+
+def rs_unwrap_or_else(v: Any, f: Callable) -> Any:
+    return f() if v is None else v
+
+
+def rs_unwrap_or(v: Any, d: Any) -> Any:
+    return d if v is None else v
+
+
+def rs_map_or(v: Any, d: Any, f: Callable) -> Any:
+    return d if v is None else f(v)
+
+
+def rs_and_then(v: Any, f: Callable) -> Any:
+    return None if v is None else f(v)
+
+
+def rs_or_else(v: Any, f: Callable) -> Any:
+    return f() if v is None else v
+
+
+def rs_ok_or(v: Any, e: Any) -> Any:
+    if v is None:
+        raise Panic('ok_or', str(e))
+    return v
+
+
+def rs_is_none_or(v: Any, f: Callable) -> bool:
+    return v is None or bool(f(v))
+
+
+def rs_is_some_or(v: Any, f: Callable) -> bool:
+    return v is not None and bool(f(v))
+
+
+def rs_get(lst: Any, i: Any) -> Any:
+    i = int(i)
+    return lst[i] if 0 <= i < len(lst) else None
+
+
+def rs_first(lst: Any) -> Any:
+    return lst[0] if len(lst) else None
+
+
+def rs_rev(it: Any) -> list:
+    return list(reversed(list(_items(it))))
+
+
+def rs_enumerate(it: Any) -> list:
+    return [(i, v) for i, v in enumerate(_items(it))]
+
+
+def rs_zip(a: Any, b: Any) -> list:
+    return list(zip(_items(a), _items(b)))
+
+
+def rs_skip(it: Any, n: Any) -> list:
+    return list(_items(it))[int(n):]
+
+
+def rs_count(it: Any) -> int:
+    return len(list(_items(it)))
+
+
+def rs_extend(lst: list, it: Any) -> None:
+    lst.extend(_items(it))
+
+
+def rs_truncate(lst: list, n: Any) -> None:
+    del lst[int(n):]
+
+
+def rs_insert(lst: list, i: Any, v: Any) -> None:
+    if int(i) > len(lst):
+        raise Panic('insert', 'index out of bounds')
+    lst.insert(int(i), v)
+
+
+def rs_remove(lst: list, i: Any) -> Any:
+    if not 0 <= int(i) < len(lst):
+        raise Panic('remove', 'index out of bounds')
+    return lst.pop(int(i))
+
+
+def rs_swap(lst: list, i: Any, j: Any) -> None:
+    if not (0 <= int(i) < len(lst) and 0 <= int(j) < len(lst)):
+        raise Panic('swap', 'index out of bounds')
+    lst[int(i)], lst[int(j)] = lst[int(j)], lst[int(i)]
+
+
+def rs_starts_with(lst: Any, p: Any) -> bool:
+    p = list(p)
+    return list(lst[: len(p)]) == p
+
+
+def rs_ends_with(lst: Any, p: Any) -> bool:
+    p = list(p)
+    return len(p) == 0 or list(lst[-len(p):]) == p
+
+
+_NOARG = object()
+
+
+def rs_min(it: Any, other: Any = _NOARG) -> Any:
+    if other is not _NOARG:  # Ord::min(a, b)
+        return it if it <= other else other
+    xs = list(_items(it))
+    return min(xs) if xs else None
+
+
+def rs_max(it: Any, other: Any = _NOARG) -> Any:
+    if other is not _NOARG:
+        return it if it >= other else other
+    xs = list(_items(it))
+    return max(xs) if xs else None
